@@ -205,17 +205,22 @@ Example pushes_between_polls :
   /\ ncreated P0 s ops_more = 1 /\ npolls ops_more = 3.
 Proof. vm_compute. repeat split; try reflexivity. repeat constructor. Qed.
 
-(** AddrEvents: the merge history above has distinct ids and pulls nothing; its log holds 11 address
-    events (polls and drops of the three sources), every source at one address, and the monitor
-    accepts the model's trace: the hypotheses of C08_log_addresses_stable /
-    C08_monitor_accepts_the_model hold and the conclusion is not about an empty set *)
+(** AddrEvents: the merge history above (distinct ids, nothing pulled) and the buffered_unordered
+    history (three children pulled from the upstream in the middle of polls): the hypothesis of
+    C08_log_addresses_stable / C08_monitor_accepts_the_model holds, the logs do contain address
+    events, and the monitor accepts the model's traces *)
 From FB Require Import AddrEvents AddrEventsHist Monitors AddrMonitor.
 Example address_events_of_a_history :
   NoDup (taken_in P0 init_state ops_merge ++ pulled_in P0 init_state ops_merge)
-  /\ pulled_in P0 init_state ops_merge = []
   /\ aevs_in P0 init_state ops_merge <> []
-  /\ chk_C08 (trace_of P0 ops_merge) = true.
+  /\ chk_C08 (trace_of P0 ops_merge) = true
+  /\ NoDup (taken_in P0 init_state ops_up ++ pulled_in P0 init_state ops_up)
+  /\ pulled_in P0 init_state ops_up = [1%N; 3%N; 2%N]
+  /\ aevs_in P0 init_state ops_up <> []
+  /\ chk_C08 (trace_of P0 ops_up) = true.
 Proof.
+  split; [vm_compute; repeat constructor; simpl; intuition discriminate|].
+  split; [vm_compute; discriminate|]. split; [vm_compute; reflexivity|].
   split; [vm_compute; repeat constructor; simpl; intuition discriminate|].
   split; [vm_compute; reflexivity|]. split; [vm_compute; discriminate|vm_compute; reflexivity].
 Qed.
